@@ -14,7 +14,8 @@ type BaseForm struct {
 	ID      string
 	Servers string // servers[0].url ("" none)
 	Vars    M
-	Flag    string // --basepath
+	Flag    string   // --basepath
+	More    []string // further servers after the first (never used for the base path)
 }
 
 var BaseForms = []BaseForm{
@@ -30,6 +31,8 @@ var BaseForms = []BaseForm{
 	{ID: "servers-root-slash", Servers: "/"},
 	{ID: "flag-trailing-slash", Flag: "/f1/"},
 	{ID: "servers-host-only", Servers: "https://example.com"},
+	{ID: "servers-first-host-only-second-path", Servers: "https://example.com", More: []string{"https://staging.example.com/v1", "/v2"}},
+	{ID: "servers-two-paths", Servers: "/v1", More: []string{"/v2/deep"}},
 }
 
 var pathVarTypes = []M{
@@ -74,6 +77,9 @@ func BuildRouterDoc(rng *rand.Rand, ts []tmpl, bf BaseForm, typed bool, perTempl
 	d := NewDoc("router")
 	if bf.Servers != "" {
 		d.Server(bf.Servers, bf.Vars)
+		for _, u := range bf.More {
+			d.Root["servers"] = append(d.Root["servers"].(L), M{"url": u})
+		}
 	}
 	switch security {
 	case "bearer":
@@ -121,8 +127,19 @@ func BuildRouterDoc(rng *rand.Rand, ts []tmpl, bf BaseForm, typed bool, perTempl
 		piParams, opParams := params[:nPathLevel], params[nPathLevel:]
 		for _, mi := range perm[:nm] {
 			op := M{"responses": M{"200": M{"description": "ok"}, "default": M{"description": "err"}}}
+			var ps L
 			if len(opParams) > 0 {
-				op["parameters"] = Clone(opParams)
+				ps = Clone(opParams).(L)
+			}
+			// an operation may re-declare a path-item level variable with
+			// another schema: its own declaration is the effective one
+			if typed && len(piParams) > 0 && rng.Intn(2) == 0 {
+				pm := CloneM(piParams[rng.Intn(len(piParams))].(M))
+				pm["schema"] = CloneM(pathVarTypes[rng.Intn(len(pathVarTypes))])
+				ps = append(ps, pm)
+			}
+			if len(ps) > 0 {
+				op["parameters"] = ps
 			}
 			if security != "" && rng.Intn(3) == 0 {
 				op["security"] = L{}
